@@ -435,3 +435,7 @@ def run(ck):
     from .. import condparity
     ck.floor("SIB/ref-conditions", condparity.check(ck, P, "SIB/ref-conditions", only={"deflate.c:flush_pending", "deflate.c:read_buf", "compress.c:compress2", "uncompr.c:uncompress2", "inflate.c:inflate", "deflate_stored.c:deflate_stored", "deflate.c:deflate"}), 50)
     ck.assumptions += ["rustc MIR", "exception table for functions that assign rather than adjust", "host target; K1"]
+
+# session 5 (round 9, D24)
+EXPLANATION = EXPLANATION + " " + (
+    'CUT/fast-loop-epilogue: every return of a fast decoding loop passes BitReader::return_unused_bytes (whole bytes read ahead go back to the input cursor).')
